@@ -3,7 +3,6 @@
    handles of the root's children. *)
 From V.model Require Import Base Deb822Lex Deb822Parse Deb822Edit Deb822Store.
 From V.proofs Require Import BaseP Deb822EditP Deb822StoreP Deb822StoreOpsP Deb822StoreParaP.
-Set Default Timeout 60.
 
 (* ------------------------------------------------------------------ positions of paragraphs *)
 Definition pidx (l : list tree) : nat := length (filter is_paragraph l).
